@@ -182,6 +182,12 @@ def run(ctx):
         c.ob("R10", not reordered, pa, "actors-persisted-in-own-order", "actor records are written in the order of the actor map" if not reordered else
              f"'{norm(it)}' re-orders the actor map while persisting it: the restored interpreter registers its children in a different order than the one that was "
              f"snapshotted, and sendTo / stopChild by service key (first recorded match) reach a different child", x if not isinstance(x, ast.comprehension) else it)
+    for x in own_nodes(fs.node):
+        if isinstance(x, ast.For) and "snapshot" in norm(x.iter) and any(k in norm(x.iter) for k in ("'actors'", '"actors"', "'system'", '"system"', "'history'", '"history"')):
+            reordered = any(isinstance(y, ast.Call) and isinstance(y.func, ast.Name) and y.func.id in ("sorted", "reversed", "set", "frozenset") for y in ast.walk(x.iter))
+            c.ob("R10", not reordered, fs, f"restored-in-persisted-order:{norm(x.iter)[:40]}", "the persisted records are restored in the order they were written" if not reordered else
+                 f"'{norm(x.iter)}' re-orders the persisted records while restoring them: the restored interpreter's registries are in a different order than the "
+                 f"snapshotted one's (addressing by service key takes the first recorded match)", x)
     # ---- R8 every persisted actor is restored and wired to its parent ------------------------------
     al = [l for l in own_nodes(fs.node) if isinstance(l, ast.For) and "'actors'" in norm(l.iter).replace('"', "'")]
     if c.expect("R8", "restore loop over the persisted actors", len(al), 1, fs, "from_snapshot no longer restores the persisted child actors"):
